@@ -233,7 +233,7 @@ def run(ctx):
                       extra_mc=[("MC_PermLemma.tla", "MC_PermLemma.cfg"),
                                 ("MC_Randomizer.tla", "MC_Randomizer_5.cfg"),
                                 # the Apalache-typed copies of the swap operators (unbounded induction,
-                                # spec/ApaSwap.tla, harness/apaswap.sh) equal Rewire.tla's: 120 matrices x 5^4
+                                # spec/apalache/ApaSwap.tla, harness/apaswap.sh) equal Rewire.tla's: 120 matrices x 5^4
                                 ("MC_ApaSwapBind.tla", "MC_ApaSwapBind.cfg")])
 
 
